@@ -736,7 +736,8 @@ def gen_load_genbank(tier, seed):
             yield [[["s1", [list(f) for f in feats]]]]
     for f1 in F:
         for f2 in F:
-            yield [[["s1", [f1]], ["s2", [f2]]]]
+            yield [[["s1", [f1]], ["s2", [f2]]]]                      # two loci in one file
+            yield [[["s1", [f1]], ["s2", [f2]]], "file per locus"]    # two files loaded into one db (db=...)
     for _ in range(2000 if thorough else 100):
         feats = []
         for i in range(rnd.randint(1, 4)):
@@ -769,19 +770,31 @@ def contract_load_genbank(case):
     forms = sorted({f[3] for _, feats in loci for f in feats})
     shape = ("multi-locus file" if len(loci) > 1 else "one feature" if len(loci[0][1]) == 1 else "several features")
     nsp = max(len(f[1]) for _, feats in loci for f in feats)
+    per_locus = len(case) > 1 and case[1] == "file per locus"
+    if per_locus:
+        shape = "one file per locus into one db"
     with _tmpdir() as tmp:
-        path = os.path.join(tmp, "in.gb")
-        with open(path, "w") as f:
-            f.write(text)
         try:
-            db = load_annotations(path=path)
+            if per_locus:
+                db = None
+                for i, (locus, feats) in enumerate(loci):
+                    path = os.path.join(tmp, f"in{i}.gb")
+                    with open(path, "w") as f:
+                        f.write(gb_text([[locus, 40, [[key, gb_location(spans, strand, form), quals]
+                                                      for key, spans, strand, form, quals in feats]]]))
+                    db = load_annotations(path=path, db=db)
+            else:
+                path = os.path.join(tmp, "in.gb")
+                with open(path, "w") as f:
+                    f.write(text)
+                db = load_annotations(path=path)
         except Exception as e:
             return ("fail", f"load_genbank/{shape}/raises {type(e).__name__}",
                     f"GenBank text {text!r}: {type(e).__name__}: {e}")
         r = check_view(db, items, "loaded db")
         if r is None:
             return ("ok", True)
-        if shape == "multi-locus file":
+        if len(loci) > 1:
             key = f"load_genbank/{shape}/{r[0]}"
         else:
             strands = "".join(sorted({f[2] for _, feats in loci for f in feats}))
@@ -900,7 +913,8 @@ BOUNDED = {
                       "genbank.LocationList.get_coordinates/strand", "GenbankAnnotationDb.add_records"],
         "bound": "one feature: every span 0<=s<e<=8 and every ordered pair of spans on that lattice x strand x location "
                  "form (a..b, bare position, <a..>b, join, complement(join), join(complement,...)); 2-3 (thorough 2-5) "
-                 "of 5 features with shared /gene names, locus_tag, unnamed features; 25 two-locus files; seeded files",
+                 "of 5 features with shared /gene names, locus_tag, unnamed features; 25 two-locus files and the same "
+                 "loci as two files loaded into one db; seeded files",
         "rule": "a case = loci with features; view(db) == records read off the feature table (start-1, end; "
                 "complement -> '-'; seqid = LOCUS; name = /gene or /locus_tag, unnamed features match any name)",
     },
